@@ -9,30 +9,34 @@
 (***************************************************************************)
 EXTENDS Numscript, Json
 
-CONSTANTS MaxDen, MaxLen, MaxAmt, Dense   \* amounts 0..Dense, then a sparse set up to MaxAmt
+CONSTANTS DenLo, DenHi,       \* common denominators DenLo..DenHi (several TLC runs partition 1..12)
+          MaxLen, MaxAmt, Dense   \* amounts 0..Dense, then a sparse set up to MaxAmt
 
 VARIABLE c
 
 Amounts == (0..Dense) \cup {a \in {97, 99, 100, 101, 127, 128, 199, 200, 255, 256, 360, 499, 500, 997, 999, 1000, 1001, 1023, 1024, 1999, 2000} : a <= MaxAmt}
+Vectors == UNION {PVecsExplicit(den, k) \cup PVecsRemaining(den, k) : den \in DenLo..DenHi, k \in 1..MaxLen}
 
-Init == c \in {[ports |-> pv, amt |-> a] : pv \in PVecs(MaxDen, MaxLen), a \in Amounts}
+Init == c \in {[ports |-> pv, amt |-> a] : pv \in Vectors, a \in Amounts}
 Next == UNCHANGED c
 
 CheckAndEmit ==
-    /\ ValidAllot(c.ports)
-    /\ ThmAllocSum(c.ports, c.amt)
-    /\ ThmAllocFloor(c.ports, c.amt)
-    /\ ThmAllocEarliest(c.ports, c.amt)
-    /\ ThmFloorExact(c.ports, c.amt)
-    /\ \A m \in 0..3 : ThmAllocScale(c.ports, m, c.amt)
-    /\ PrintT(<<"CASE", ToJson([ports |-> c.ports, amt |-> c.amt, parts |-> Allocate(c.ports, c.amt),
-                                den |-> CommonDen(c.ports), nums |-> ResolvedNums(c.ports), valid |-> TRUE])>>)
+    LET D == CommonDen(c.ports)
+        nums == ResolvedNums(c.ports)
+        fl == FloorsWith(D, nums, c.amt)
+        al == AllocateFrom(fl, c.amt)
+    IN /\ ValidAllot(c.ports)
+       /\ ThmAllocSum(al, c.amt) /\ ThmAllocFloor(fl, al) /\ ThmAllocEarliest(fl, al)
+       /\ ThmFloorExact(D, nums, fl, c.amt)
+       /\ \A m \in 1..3 : ThmAllocScale(D, nums, al, m, c.amt)
+       /\ al = Allocate(c.ports, c.amt)
+       /\ PrintT(<<"CASE", ToJson([ports |-> c.ports, amt |-> c.amt, parts |-> al, den |-> D, nums |-> nums, valid |-> TRUE])>>)
 
 \* one by one (cfg *_diag)
 Inv_Valid    == ValidAllot(c.ports)
-Inv_Sum      == ThmAllocSum(c.ports, c.amt)
-Inv_Floor    == ThmAllocFloor(c.ports, c.amt)
-Inv_Earliest == ThmAllocEarliest(c.ports, c.amt)
-Inv_Exact    == ThmFloorExact(c.ports, c.amt)
-Inv_Scale    == \A m \in 0..3 : ThmAllocScale(c.ports, m, c.amt)
+Inv_Sum      == ThmAllocSum(Allocate(c.ports, c.amt), c.amt)
+Inv_Floor    == ThmAllocFloor(Floors(c.ports, c.amt), Allocate(c.ports, c.amt))
+Inv_Earliest == ThmAllocEarliest(Floors(c.ports, c.amt), Allocate(c.ports, c.amt))
+Inv_Exact    == ThmFloorExact(CommonDen(c.ports), ResolvedNums(c.ports), Floors(c.ports, c.amt), c.amt)
+Inv_Scale    == \A m \in 1..3 : ThmAllocScale(CommonDen(c.ports), ResolvedNums(c.ports), Allocate(c.ports, c.amt), m, c.amt)
 =============================================================================
